@@ -68,6 +68,8 @@ def gen(t, tier):
     else:
         link = None
         sc['backend'] = {'type': typ}
+        if typ == 'legend':
+            sc['backend']['perm'] = t.pick([None, '644', '664'])      # globals.cache.file_permissions
     if typ in ('file', 'compact'):
         pool = [t.pick(COORDS) for _ in range(t.randint(2, 5))]
         for _ in range(t.randint(0, 8)):
@@ -162,7 +164,7 @@ class Store(object):
             self.cache = C.make_cache(b)
         elif self.typ == 'legend':
             from mapproxy.cache.legend import LegendCache
-            self.cache = LegendCache(C.CACHE_DIR + '/legends', 'png')
+            self.cache = LegendCache(C.CACHE_DIR + '/legends', 'png', file_permissions=b.get('perm'))
 
     def store(self, items, filesrc=None):
         if self.typ in ('file', 'compact'):
